@@ -395,6 +395,9 @@ def run(ctx: Ctx) -> None:
     ctx.call(push_pop, "5")
     ctx.call(readme_table, "7")
     ctx.call(check_chain, "9")
+    from ..kinds import signature_defaults
+
+    ctx.call(signature_defaults, "9d", {f"{SETUP}:{op}_states": {"env": "None"} for op in ("check", "get", "set", "unset", "push", "pop")}, "state operations work without an environment")
     ctx.call(registry, "10")
 
 
